@@ -21,6 +21,7 @@ class Ctx:
         self.prop, self.tier, self.seed = prop, tier, seed
         self.t0 = time.time()
         base = os.environ.get("VERIF_TMP") or tempfile.gettempdir()
+        os.makedirs(base, exist_ok=True)
         self.work = tempfile.mkdtemp(prefix="verif-%s-" % prop, dir=base)
         self.violations = []      # (what, replay_path)
         self.known = []           # strings
